@@ -2,7 +2,7 @@
 """C06 — session state carries over between requests exactly, never after it ended.
 See DESIGN.md section 5 (C06) and design.d/C06.md.
 Usage: checks/c06.py [--tier quick|thorough] [--replay file]"""
-import os, sys, json, glob
+import os, sys, json, glob, random
 sys.path.insert(0, os.path.join(os.path.dirname(os.path.abspath(__file__)), "..", "lib"))
 from vcheck import *
 
@@ -124,17 +124,20 @@ def never_issued_sid(rng):
 def gen_history(rng, tier, flavour=None):
     """returns (lines, judged) — judged False for histories with backward clock moves"""
     loc = rng.choice(("client", "server", "server", "both", "both"))
-    kind = rng.choice(("memory", "memory", "files", "files", "network"))
+    kind = rng.choice(("memory", "memory", "memory", "files", "files", "files", "network", "network2", "network3"))
     how = rng.randrange(3)
     timeout = rng.choice((10, 20, 50, 100, 100, 3600))
     limit = rng.choice((20, 30, 60, 2048))
     cfg = {"loc": loc, "kind": kind, "how": how, "timeout": timeout, "limit": limit}
     lines = [f"new {loc} {kind} {how} {timeout} {limit}"]
-    nb = rng.choice((1, 1, 2, 2, 3))
+    multi = kind in ("network2", "network3")
+    nb = rng.choice((3, 4, 6, 8)) if multi else rng.choice((1, 1, 2, 2, 3))     # several nodes: many identifiers, so that they spread
     attacker = rng.random() < 0.5
-    backward = rng.random() < 0.12
+    backward = rng.random() < 0.12 and not multi        # several nodes: only visible records are listed, keep the clock monotone
     steal_ok = rng.random() < 0.3
-    nreq = rng.randrange(1, 12 * nb + 1) if rng.random() < 0.5 else rng.randrange(1, 13)
+    nreq = rng.randrange(1, 12 * min(nb, 3) + 1) if rng.random() < 0.5 else rng.randrange(1, 13)
+    if multi:
+        nreq = rng.randrange(nb, 5 * nb)
     now = rng.choice((1000, 1000, 1000, 1000, 1000, 1000, 1000, 1000, 2147483000, 4000000000))   # also across and beyond 2^31
     ages = [timeout, 5, 10, 20, 30, 100]
     started = set()
@@ -176,7 +179,24 @@ def gen_history(rng, tier, flavour=None):
             spec = "jar"
         ops = gen_ops(rng, cfg, b not in started)
         started.add(b)
-        lines.append(" ".join([f"req {b} {now} {spec}"] + ops))
+        if rng.random() < 0.08:
+            # one object, two loads: set_cookie_adapter_and_reload with another browser's cookie, an unacceptable one, an old one or none
+            r = rng.random()
+            if r < 0.30:
+                spec2 = f"steal:{rng.randrange(nb)}"
+            elif r < 0.55:
+                spec2 = malformed_cookie(rng)
+            elif r < 0.65:
+                spec2 = never_issued_sid(rng)
+            elif r < 0.80:
+                spec2 = "none"
+            elif r < 0.92:
+                spec2 = f"old:{rng.randrange(3)}"
+            else:
+                spec2 = "jar"
+            lines.append(" ".join([f"req2 {b} {now} {spec}"] + ops + ["/", spec2] + gen_ops(rng, cfg, rng.random() < 0.5)))
+        else:
+            lines.append(" ".join([f"req {b} {now} {spec}"] + ops))
         if b != 9 and ops and rng.random() < 0.2:
             # an attacker (or stale browser state) replays the most recently issued cookie that no browser holds any more:
             # right after a clear / reset / size switch that is the identifier just given up
@@ -230,6 +250,33 @@ def special_histories(tier):
     for kind in ("memory", "files"):
         H.append([f"new server {kind} 1 100 2048", "req 0 1000 jar set:6b:76", "req 0 1001 jar clear", "req 9 1002 old:0",
                   "req 0 1003 jar set:6b:76", "req 0 1004 jar reset", "req 9 1005 old:0", "req 9 1005 old:1"])
+    # one object, two loads (seeded C05-4: load() not clearing data_/data_copy_): genuine cookie first, then a garbage / foreign /
+    # expired / absent one; the reload must show the second cookie's session only, and a following set+save must not carry the first over
+    garbage = "raw:" + (b"C" + b"Zm9vYmFy" * 5).hex()
+    for loc, kind in (("client", "memory"), ("server", "memory"), ("server", "files"), ("both", "memory"), ("both", "network")):
+        H.append([f"new {loc} {kind} 1 100 30", "req 0 1000 jar set:6b:76 set:73:736563726574 expose:6b", "req 1 1000 jar set:61:62",
+                  f"req2 0 1001 jar / {garbage}", f"req2 0 1002 old:0 / {garbage} set:78:79", "req 0 1003 jar",
+                  "req2 0 1004 old:0 set:7a:7a / none set:78:79", "req 0 1005 jar",
+                  "req2 1 1006 jar / steal:0", "req2 1 1007 jar set:71:71 reset / steal:0 set:72:72", "req 1 1008 jar", "req 0 1009 jar",
+                  "req2 0 1200 old:0 / old:1 set:78:79", "req 0 1201 jar",
+                  "req2 2 1300 " + never_issued_sid(random.Random(5)) + " set:6b:76 / raw:" + (b"I" + b"0" * 31).hex() + " set:78:79", "req 2 1301 jar"])
+    # network storage over 2 and 3 nodes (seeded C06-5: save routed by sid+payload): 16 browsers, set, read+update twice, read+clear, replay
+    for kind in ("network2", "network3"):
+        for loc in ("server", "both"):
+            h = [f"new {loc} {kind} 1 1000 20"]
+            for b in range(16):
+                h.append(f"req {b} {1000 + b} jar set:6b:r{0x41 + b:02x}x30")
+            for rnd in (1, 2):
+                for b in range(16):
+                    h.append(f"req {b} {1100 * rnd + b} jar set:6e:{rnd:02x}{b:02x} set:6b:r{0x61 + b:02x}x{30 + rnd}")
+            for b in range(16):
+                h.append(f"req {b} {3000 + b} jar")
+            for b in range(0, 16, 2):
+                h.append(f"req {b} {3100 + b} jar clear")
+                h.append(f"req 9{b} {3100 + b} old:0")
+            for b in range(16):
+                h.append(f"req {b} {3200 + b} jar")
+            H.append(h)
     # clear on a session that only exists client-side; replay of the old client cookie (inherent to client storage)
     H.append(["new both memory 1 100 2048", "req 0 1000 jar set:6b:76", "req 0 1001 jar clear", "req 9 1002 old:0", "req 9 1102 old:0"])
     # short_gc: more than five expired sessions, collected five at a time
@@ -387,10 +434,10 @@ def main():
     global OBLIGATIONS
     c = Check("C06")
     OBLIGATIONS = load_obligations()
-    c.rule = ("cases = request lines of histories (new <location> <storage: memory|files|network> <expire> <timeout> <client_size_limit>; then "
+    c.rule = ("cases = request lines of histories (new <location> <storage: memory|files|network|network2|network3> <expire> <timeout> <client_size_limit>; then "
               "req <browser> <now> <cookie: jar|none|raw|old|steal> <ops>): hand-written boundary histories (10 % window, deadline, "
               "packed limits, location=client+on_server, non-numeric _t/_h/_s, size switch + reset, short_gc > 5, path-like ids), corpus, "
-              "random histories of 1..3 browsers + an attacker, 1..36 requests, op mix set/erase/clear/expose/hide/age/default_age/"
+              "random histories of 1..3 browsers (3..8 over 2 or 3 network nodes) + an attacker, 1..36 requests, 8 % of them two loads on one object (req2: set_cookie_adapter_and_reload with a stolen / malformed / never-issued / old / absent cookie), op mix set/erase/clear/expose/hide/age/default_age/"
               "expiration/default_expiration/on_server/reset_session, clock steps around 10 % of the age and around the deadline "
               "(12 % of histories also step backwards: correspondence only, not judged); non-trivial = the model's trace of the request "
               "loaded a non-empty session, wrote, cleared a presented cookie or raised; distinct = distinct (configuration, request line, trace)")
@@ -446,7 +493,7 @@ def main():
         # (booster::thread_specific_ptr keys live as long as the thread that used them), so network histories are rationed
         batches, cur, nnet = [], [], 0
         for hst in hists:
-            isnet = " network " in hst[1][0]
+            isnet = " network" in hst[1][0]
             if cur and ((isnet and nnet >= 250) or sum(len(x[1]) for x in cur) > 80000):
                 batches.append(cur); cur, nnet = [], 0
             cur.append(hst); nnet += 1 if isnet else 0
@@ -472,8 +519,10 @@ def main():
                 counter["k"] += 1
                 k = counter["k"]
                 t = tr.get(k, "")
-                if not cs.startswith("req "):
+                if not cs.startswith("req"):
                     return None
+                if t.startswith("reload "):
+                    t = t[7:]
                 if t.startswith("loaded") or "written" in t or "err" in t or (t == "empty cleared" and " jar" not in cs and " none" not in cs):
                     return (cfg_of[k], cs, t)
                 return None
